@@ -153,14 +153,68 @@ var (
 	parseFloatMatchValid      = regexp.MustCompile(`[0-9eE\+\-\.]|Infinity`)
 )
 
+// strDecimalLiteralPrefix returns the length of the longest prefix of value that
+// is a StrDecimalLiteral (ECMA 262 9.3.1), 0 if there is none.
+func strDecimalLiteralPrefix(value string) int {
+	isDigit := func(index int) bool {
+		return index < len(value) && '0' <= value[index] && value[index] <= '9'
+	}
+	index := 0
+	if index < len(value) && (value[index] == '+' || value[index] == '-') {
+		index++
+	}
+	if strings.HasPrefix(value[index:], "Infinity") {
+		return index + len("Infinity")
+	}
+	digits := 0
+	for isDigit(index) {
+		index++
+		digits++
+	}
+	if index < len(value) && value[index] == '.' {
+		end := index + 1
+		for isDigit(end) {
+			end++
+			digits++
+		}
+		if digits > 0 {
+			index = end
+		}
+	}
+	if digits == 0 {
+		return 0
+	}
+	if index < len(value) && (value[index] == 'e' || value[index] == 'E') {
+		end := index + 1
+		if end < len(value) && (value[end] == '+' || value[end] == '-') {
+			end++
+		}
+		if isDigit(end) {
+			for isDigit(end) {
+				end++
+			}
+			index = end
+		}
+	}
+	return index
+}
+
 func builtinGlobalParseFloat(call FunctionCall) Value {
 	// Caveat emptor: This implementation does NOT match the specification
 	input := strings.Trim(call.Argument(0).string(), builtinStringTrimWhitespace)
+
+	// ECMA 262 15.1.2.3: only the longest prefix that is a StrDecimalLiteral
+	// counts; strconv accepts more (inf, infinity, nan, hexadecimal floats,
+	// underscores) and what follows the prefix must not influence the result.
+	input = input[:strDecimalLiteralPrefix(input)]
 
 	if parseFloatMatchBadSpecial.MatchString(input) {
 		return NaNValue()
 	}
 	value, err := strconv.ParseFloat(input, 64)
+	if errors.Is(err, strconv.ErrRange) {
+		err = nil // the value is +-Infinity or 0 as required, not a syntax error
+	}
 	if err != nil {
 		for end := len(input); end > 0; end-- {
 			val := input[0:end]
